@@ -163,7 +163,7 @@ Theorem rebase_exact_run e c um a b0 s :
   end.
 Proof.
   intros Hcfg Hfs Hnd Hst Hnp.
-  destruct (cfg_ok_spec c Hcfg) as (Lc & bsr & wsr & usr & Ec & bpr & gpr & PL & EL & _).
+  destruct (cfg_ok_spec c Hcfg) as (Lc & bsr & wsr & usr & Ec & bpr & gpr & Bc & PL & EL & _).
   destruct (fs_ok_spec c Lc _ PL EL Hfs) as (Hc0 & Hn0 & Hcl0).
   cbn [run_command].
   apply (with_layers_post c um (fun ld => rebase_layer e c ld a b0) s
